@@ -446,7 +446,8 @@ def check(prop, tier, replay=None, quiet=False):
                 continue  # debugging aid: run only the parts of one build mode
             if replay:
                 scen = json.load(open(replay)).get("scenario", "")
-                if part.get("scenario_prefix") and not scen.startswith(part["scenario_prefix"]):
+                pref = part.get("scenario_prefix")
+                if pref and not scen.startswith(tuple(pref) if isinstance(pref, list) else pref):
                     continue
                 if part.get("scenario_exclude") and scen.startswith(part["scenario_exclude"]):
                     continue
